@@ -31,6 +31,9 @@ INSTANCES = {
     "LabDUP": dict(module="MC_Lab", consts=dict(Names="DUP_Names", Shape="DUP_Shape", InitVes="DUP_Init", Regions="PL_Regions",
                                                 Forms="DUP_Forms", Fracs="PL_Fracs", CapStep="PL_CapStep", RemoveCases="DUP_Remove",
                                                 FillCases="DUP_Fill", FillDeltas="PL_FillDeltas"), den_bound=1728),
+    # two different plates that are equal in every respect (name, shape, capacity, contents)
+    "LabTWIN": dict(module="MC_Lab", consts=dict(Names="DUP_Names", Shape="DUP_Shape", InitVes="TWIN_Init", Regions="PL_Regions",
+                                                 Forms="TWIN_Forms", Fracs="PL_FracsQuick", TUnits="QuickUnits", CapStep="PL_CapStep"), den_bound=1728),
     # two lots of one enzyme
     "LabLOT": dict(module="MC_Lab", consts=dict(Subst="SubstLot", Names="LOT_Names", Shape="LOT_Shape", InitVes="LOT_Init",
                                                 Forms="LOT_Forms", Fracs="LOT_Fracs", SolCases="LOT_Sol", FillCases="LOT_Fill",
